@@ -596,6 +596,13 @@ func TestVerifC04(t *testing.T) {
 				producers: [][]c04Msg{{mk(0, 1, 1), mk(0, 1, 1), mk(0, 2, 1)}, {mk(1, 1, 2), mk(0, 1, 2)}},
 				consumer:  []string{"deq", "deq", "deq", "empty"}, consumer2: []string{"deq", "deq"}},
 		}
+		if k.name == "UnboundedSegmented" {
+			// recycled-segment (ABA) window: a producer that loaded the tail of box 0 is overtaken while
+			// the consumer recycles that segment and box 1 draws it from the shared pool.
+			scs = append(scs, c04Scenario{name: k.name + "/recycled-segment-2boxes", kind: k, bound: vsched.Pick(1, 2),
+				producers: [][]c04Msg{{mk(0, 1, 1), mk(0, 1, 1), mk(0, 1, 1)}, {mk(0, 1, 2)}, {mk(1, 1, 3), mk(1, 1, 3), mk(1, 1, 3)}},
+				consumer:  []string{"deq", "deq", "deq"}, consumer2: []string{"deq", "deq", "deq", "deq"}})
+		}
 		if r.Thorough() {
 			scs = append(scs, c04Scenario{name: k.name + "/3p-1c", kind: k, bound: 2,
 				producers: [][]c04Msg{{mk(0, 2, 1), mk(0, 1, 1)}, {mk(0, 1, 2)}, {mk(0, 3, 1), mk(1, 1, 3)}},
